@@ -786,7 +786,7 @@ def m_str_as_ptr(eng, m, args, dest_ts, st, where):
     return Sc(STR_BASE + s.fs[1].t)
 
 
-@model('Into<String> for &str', r'^<&str as Into<String>>::into$')
+@model('Into<String> for &str', r'^<&str as Into<String>>::into$|^<str as ToString>::to_string$|^<str as ToOwned>::to_owned$|^<String as From<&str>>::from$|^core::str::<impl str>::to_string$')
 def m_str_into_string(eng, m, args, dest_ts, st, where):
     if not eng.tenv.string_as_slice:
         return NotImplemented
